@@ -1,5 +1,5 @@
 CONSTANTS MaxRow = 1048576 MaxCol = 16384 Wide = FALSE MaxOpts = 2 MaxSst = 0 MaxCells = 1 UseBlock = FALSE MaxAttrs = 2
   Variants = "few" EmitReplay = FALSE
 SPECIFICATION MCSpec
-INVARIANTS DecodeTotal KindByType SstIndirection AnchorFirst SharedConsistent PositionsImplied XLemmas LinksOk
+INVARIANTS DecodeTotal KindByType SstIndirection AnchorFirst SharedConsistent PositionsImplied XLemmas FmtLemmas LinksOk
 CHECK_DEADLOCK FALSE
